@@ -58,6 +58,7 @@ type Exec struct {
 	funcsSeen  map[string]bool
 	lemmaErrors []string
 	pure        int
+	retFrame    *Frame
 	hmArrays    map[string]string
 	heapViews   map[string]*heapViewInfo
 	sumFields   map[string][]string
